@@ -1,6 +1,7 @@
 package main
 
 import (
+	"fmt"
 	"math"
 	"verif/harness/ephem"
 
@@ -207,18 +208,25 @@ func c03Years(c *ctx) {
 			if len(qs)%9 == 4 {
 				perturb(c, y)
 			}
+			var tb2 []string
 			pp, _ := try(func() {
 				l = s.GetLunar()
 				if len(qs)%3 == 2 {
 					// the same lunar date built from its own numbers: the term queries are asked of that object
+					l0 := l
 					l = calendar.NewLunar(l.GetYear(), l.GetMonth(), l.GetDay(), s.GetHour(), s.GetMinute(), s.GetSecond())
+					tb2 = []string{sha12(fmt.Sprint(termTable(l))), sha12(fmt.Sprint(termTable(l0)))}
 				}
 			})
 			if pp {
 				qs = append(qs, obj{"at": sol(s), "p": 1})
 				return
 			}
-			qs = append(qs, c03Query(l))
+			qo := c03Query(l)
+			if tb2 != nil {
+				qo["tb2"] = tb2
+			}
+			qs = append(qs, qo)
 		}
 		for _, row := range tab {
 			if len(row) < 7 {
@@ -243,9 +251,19 @@ func c03Years(c *ctx) {
 			add(x)
 			x, _ = safeSolar(ty, tm, td, 23, 59, 59)
 			add(x)
-			if c.rng.Intn(3) == 0 {
+			if sod := th*3600 + tmi*60 + ts; c.rng.Intn(3) == 0 || sod < 60 || sod >= 86340 {
 				add(t.NextDay(-1))
 				add(t.NextDay(1))
+				if sod < 60 || sod >= 86340 {
+					// a term at (nearly) midnight: the days either side at noon and at their last second
+					for _, dd := range []int{-1, 1} {
+						nd := t.NextDay(dd)
+						x, _ := safeSolar(nd.GetYear(), nd.GetMonth(), nd.GetDay(), 12, 0, 0)
+						add(x)
+						x, _ = safeSolar(nd.GetYear(), nd.GetMonth(), nd.GetDay(), 23, 59, 59)
+						add(x)
+					}
+				}
 			}
 		}
 		for k := 0; k < nrand; k++ {
